@@ -546,6 +546,76 @@ def sig_case(call, acc: Acc):
                                     what=f"{call.strip()!r} col {col}: active parameter {r.get('activeParameter')}, expected {idx} of {callee}"))
 
 
+# ------------------------------------------------------ type-bound signatures
+# A call through a binding does not write the passed-object dummy: it is the first dummy by default, the one named by
+# PASS(name) (in any letter case and spacing), none with NOPASS.
+BOUND_LIB = """module bm
+  implicit none
+  type :: bt
+  contains
+    procedure :: tb_default => bimpl_first
+    procedure, pass(me) :: tb_pass => bimpl_mid
+    procedure, PASS( Me ) :: tb_pass_spaced => bimpl_mid
+    procedure, pass (ME) :: tb_pass_upper => bimpl_last
+    procedure, nopass :: tb_nopass => bimpl_none
+  end type bt
+contains
+  subroutine bimpl_first(me, x, y)
+    class(bt) :: me
+    integer :: x, y
+  end subroutine bimpl_first
+  subroutine bimpl_mid(x, me, y)
+    class(bt) :: me
+    integer :: x, y
+  end subroutine bimpl_mid
+  subroutine bimpl_last(x, y, me)
+    class(bt) :: me
+    integer :: x, y
+  end subroutine bimpl_last
+  subroutine bimpl_none(x, y)
+    integer :: x, y
+  end subroutine bimpl_none
+end module bm
+"""
+BOUND_NAMES = ["tb_default", "tb_pass", "tb_pass_spaced", "tb_pass_upper", "tb_nopass"]
+
+
+def bound_case(name, acc: Acc):
+    call = f"  call ob%{name}(11, 22)"
+    text = BOUND_LIB + "program bp\n  use bm\n  implicit none\n  type(bt) :: ob\n" + call + "\nend program bp\n"
+    sc = worker_scratch("c11")
+    sc.wipe()
+    root = os.path.realpath(sc.path)
+    path = os.path.join(root, "b.f90")
+    with open(path, "w") as f:
+        f.write(text)
+    s = Server([])
+    s.initialize(root)
+    ln = text.split("\n").index(call)
+    for col, idx in ((call.index("11") + 1, 0), (call.index("22") + 1, 1)):
+        r = s.result("textDocument/signatureHelp", Server.tdpp(path, ln, col))
+        acc.case(nontrivial_key=(name, idx), outcome=(name, idx))
+        tags0 = {"family": "bound_signature", "binding": name}
+        cs = {"binding": name, "character": col, "text": text, "line": ln}
+        if not (isinstance(r, dict) and r.get("signatures")):
+            acc.violation(Violation("bound_signature", {**tags0, "obs": "no_signature"}, cs, (name, ["x", "y"], idx), r, what=f"{call.strip()!r} col {col}: no signature"))
+            continue
+        sig = r["signatures"][0]
+        params = [p["label"].split("=")[0].lower() for p in sig.get("parameters", [])]
+        if not sig["label"].lower().startswith(name) or params != ["x", "y"]:
+            acc.violation(Violation("bound_signature", {**tags0, "obs": "wrong_signature"}, cs, (name, ["x", "y"]), (sig["label"], params),
+                                    what=f"{call.strip()!r}: expected {name}(x, y), got {sig['label']}"))
+        elif r.get("activeParameter") != idx:
+            acc.violation(Violation("bound_signature", {**tags0, "obs": "active_parameter"}, cs, idx, r.get("activeParameter"),
+                                    what=f"{call.strip()!r} col {col}: active parameter {r.get('activeParameter')}, expected {idx}"))
+    h = s.result("textDocument/hover", Server.tdpp(path, ln, call.index(name) + 2))
+    code = (h or {}).get("contents", {}).get("value", "").split("\n")
+    first = norm(code[1]) if len(code) > 1 else ""
+    if first != norm(f"SUBROUTINE {name}(x, y)"):
+        acc.violation(Violation("bound_signature", {"family": "bound_signature", "binding": name, "obs": "hover_signature_line"},
+                                {"binding": name, "text": text, "line": ln}, f"SUBROUTINE {name}(x, y)", code[:2], what=f"hover of ob%{name}: {code[1:2]}"))
+
+
 def _in_plain_paren(line, col):
     depth_kinds = []
     q = None
@@ -581,6 +651,8 @@ def main(ctx):
     ctx.add_family("procedures", pacc)
     sacc = core.pmap(sig_case, CALLS, chunk=1, budget_s=120, label="C11/sig")
     ctx.add_family("signature", sacc)
+    tacc = core.pmap(bound_case, BOUND_NAMES, chunk=1, budget_s=120, label="C11/bound")
+    ctx.add_family("bound_signature", tacc, what="calls through five bindings (default pass, PASS(name) in three spellings and dummy positions, NOPASS)")
 
 
 def replay(rec):
@@ -588,6 +660,8 @@ def replay(rec):
     acc = Acc()
     if rec["family"] == "declarations":
         decl_case(eval(c["case"]), acc)
+    elif rec["family"] == "bound_signature":
+        bound_case(c["binding"], acc)
     elif rec["family"] == "siblings":
         sibling_case(eval(c["case"]), acc)
         acc.violations = [v for v in acc.violations if v.case["entity"] == c["entity"]]
